@@ -118,6 +118,8 @@ def run_case(case):
         obj.flag = bool(flag)
         signal.setitimer(signal.ITIMER_REAL, QUERY_LIMIT_S if TIMEOUTS[0] < 2 else 0.25)
         try:
+            if TIMEOUTS[0] >= 20:
+                raise QueryTimeout()
             if api == "adapt":
                 o = {"k": "value", "v": classify(m.adapt(obj, ts[tgt]), obj, DEFAULT)}
             elif api == "adapt_default":
